@@ -9,6 +9,7 @@ import (
 	"sync/atomic"
 	"bytes"
 	"fmt"
+	"io"
 	"net"
 	"os"
 	"os/exec"
@@ -44,6 +45,8 @@ func daemonEngine(args []string) error {
 		return daemonSvc(r, c.n)
 	case "act":
 		return daemonAct(r, c.n)
+	case "ops":
+		return daemonOps(r, c.n)
 	}
 	return fmt.Errorf("daemon: unknown mode %q", c.mode)
 }
@@ -320,6 +323,90 @@ func daemonBind(r *rng, n int) error {
 		if l != "" {
 			fmt.Println(l)
 		}
+	}
+	return nil
+}
+
+// mode ops (C16): life cycles of the daemon's own service object (proxySvc.Start / Stop / Restart of run.go, through
+// the probe binary) on one address that somebody else occupies and frees in between: a start on an occupied
+// address reports the failure -- also the second time, also after a stop -- and one that reports success holds the
+// address.   dops <id> <ops> => <result/held>...
+func daemonOps(r *rng, n int) error {
+	lines := make([]string, n)
+	var wg sync.WaitGroup
+	for i := 0; i < n; i++ {
+		// at most two successful starts per history (each takes start's own 5 s wait)
+		var ops []string
+		serving, occupied, succ := false, false, 0
+		for k := r.rng(4, 9); k > 0; k-- {
+			switch x := r.intn(10); {
+			case x < 3 && !serving && !occupied:
+				ops, occupied = append(ops, "O"), true
+			case x < 3 && occupied:
+				ops, occupied = append(ops, "F"), false
+			case x < 7 && !serving:
+				if !occupied {
+					if succ >= 2 {
+						continue
+					}
+					succ++
+					serving = true
+				}
+				ops = append(ops, "S")
+			case x < 8:
+				if !occupied {
+					if succ >= 2 {
+						continue
+					}
+					succ++
+					serving = true
+				}
+				ops = append(ops, "R")
+			default:
+				if serving || r.coin(30) {
+					ops, serving = append(ops, "T"), false
+				}
+			}
+		}
+		if i == 0 {
+			ops = []string{"O", "S", "S", "F", "S", "T"}
+		}
+		if serving {
+			ops = append(ops, "T")
+		}
+		script := strings.Join(ops, ",")
+		addr := fmt.Sprintf("127.0.0.1:%d", 5600+i%200)
+		wg.Add(1)
+		go func(i int) {
+			defer wg.Done()
+			cmd := exec.Command(daemonBin())
+			cmd.Env = append(os.Environ(), "NXVERIF_PROBE=1")
+			cmd.Stdin = strings.NewReader("svc " + addr + " " + script + "\n")
+			cmd.Stderr = io.Discard
+			done := make(chan struct{})
+			var out []byte
+			go func() { out, _ = cmd.Output(); close(done) }()
+			select {
+			case <-done:
+			case <-time.After(90 * time.Second):
+				if cmd.Process != nil {
+					_ = cmd.Process.Kill()
+				}
+				<-done
+			}
+			res := strings.TrimSpace(string(out))
+			if res == "" {
+				res = "none"
+			}
+			lines[i] = "dops " + itoa(i) + " " + script + " => " + res
+		}(i)
+		if i%8 == 7 {
+			wg.Wait()
+		}
+	}
+	wg.Wait()
+	for _, l := range lines {
+		fmt.Println(l)
 	}
 	return nil
 }
